@@ -34,19 +34,20 @@ type Violation struct {
 
 // WorkerResult is what one worker reports.
 type WorkerResult struct {
-	Evaluations int64            `json:"evaluations"`
-	States      int64            `json:"states"`
-	Transitions int64            `json:"transitions"`
-	Traces      int64            `json:"traces"`
-	Distinct    int64            `json:"distinct"`
-	Nontrivial  int64            `json:"nontrivial"`
-	Counters    map[string]int64 `json:"counters"`
-	Samples     []any            `json:"samples"`
-	Violations  []Violation      `json:"violations"`
-	Capped      bool             `json:"capped"`
-	ToolError   string           `json:"tool_error,omitempty"`
-	Bounds      map[string]any   `json:"bounds,omitempty"`
-	NoStop      []Violation      `json:"nostop,omitempty"` // debugging aid (VERIF_NOSTOP): all violations, never stops
+	Evaluations int64                `json:"evaluations"`
+	States      int64                `json:"states"`
+	Transitions int64                `json:"transitions"`
+	Traces      int64                `json:"traces"`
+	Distinct    int64                `json:"distinct"`
+	Nontrivial  int64                `json:"nontrivial"`
+	Counters    map[string]int64     `json:"counters"`
+	Samples     []any                `json:"samples"`
+	Violations  []Violation          `json:"violations"`
+	Capped      bool                 `json:"capped"`
+	ToolError   string               `json:"tool_error,omitempty"`
+	Bounds      map[string]any       `json:"bounds,omitempty"`
+	NoStop      []Violation          `json:"nostop,omitempty"`     // debugging aid (VERIF_NOSTOP): all violations, never stops
+	KnownSeen   map[string]Violation `json:"known_seen,omitempty"` // one example per recorded-finding signature met
 }
 
 func (w *WorkerResult) count(name string, n int64) {
@@ -292,6 +293,14 @@ func parent(ck *Check, tier string, seed int64, secs int, nw int) int {
 			total.sample(s)
 		}
 		total.Violations = append(total.Violations, r.Violations...)
+		for sig, v := range r.KnownSeen {
+			if total.KnownSeen == nil {
+				total.KnownSeen = map[string]Violation{}
+			}
+			if old, ok := total.KnownSeen[sig]; !ok || v.Weight < old.Weight {
+				total.KnownSeen[sig] = v
+			}
+		}
 		total.NoStop = append(total.NoStop, r.NoStop...)
 		total.Capped = total.Capped || r.Capped
 		if r.ToolError != "" {
@@ -310,6 +319,10 @@ func parent(ck *Check, tier string, seed int64, secs int, nw int) int {
 
 	// known findings
 	known := loadKnown()
+	for _, v := range total.KnownSeen {
+		total.Violations = append(total.Violations, v) // listed: KNOWN-FINDING line; not listed: an ordinary violation
+	}
+	sort.SliceStable(total.Violations, func(i, j int) bool { return total.Violations[i].Weight < total.Violations[j].Weight })
 	var real []Violation
 	knownSeen := map[string]bool{}
 	for _, v := range total.Violations {
